@@ -370,12 +370,23 @@ class PersistenceDecorator(TickPersistenceDecorator):
                         persistent.workflow_name,
                         status,
                     )
-                    await self._store.update_handler_status(
-                        run_id,
-                        status=status,
-                        result=result,
-                        error=error,
-                    )
+                    try:
+                        await self._store.update_handler_status(
+                            run_id,
+                            status=status,
+                            result=result,
+                            error=error,
+                        )
+                    except Exception:
+                        # The run HAS ended as replayed; a store hiccup while
+                        # recording that must not turn it into a failure below.
+                        # The handler stays "running" and is finalized by the
+                        # next startup pass.
+                        logger.exception(
+                            "Failed to finalize handler %s as %s",
+                            persistent.handler_id,
+                            status,
+                        )
                     continue
 
                 workflow.run(ctx=replayed.context, run_id=run_id)
